@@ -1,6 +1,6 @@
 PROPERTY = "C06"
 LEVEL = "proof"
-LEAN_MODULES = ["CifModel.Props.C06", "CifModel.Props.C04", "CifModel.Model.StoreSchema"]
+LEAN_MODULES = ["CifModel.Props.C06", "CifModel.Props.C04", "CifModel.Model.StoreSchema", "CifModel.Props.ReviewC06"]
 REQUIRED = ["CifModel.C06_delivers_each_once", "CifModel.C06_packet_complete", "CifModel.C06_open", "CifModel.C06_caller_packet", "CifModel.C06_open_wf", "CifModel.C06_open_refused",
             "CifModel.C06_state_machine", "CifModel.C06_update_only_named_items", "CifModel.C06_close_commits", "CifModel.C06_abort_reverts",
             "CifModel.C06_frees_cif", "CifModel.C04_inv_reachable", "CifModel.Store.schema_sql_link", "CifModel.Store.C05_paths_link"]
